@@ -88,6 +88,9 @@ func (g *c07Gen) script(kind int) []byte {
 }
 
 func (g *c07Gen) scriptKind() int {
+	if g.r.Search && g.n(4) == 0 {
+		return 4
+	}
 	switch x := g.n(100); {
 	case x < 22:
 		return 0
@@ -181,6 +184,9 @@ func (g *c07Gen) rate() int64 {
 }
 
 func (g *c07Gen) best() uint32 {
+	if g.r.Search && g.n(2) == 0 {
+		return uint32(math.MaxUint32 - g.i64(0, 60000))
+	}
 	switch x := g.n(100); {
 	case x < 70:
 		return uint32(g.i64(1000, 900000))
@@ -216,9 +222,9 @@ func (g *c07Gen) acct(best uint32) c07Acct {
 		a.Value = g.i64(100000, 400000)
 	}
 	switch x := g.n(100); {
-	case x < 72:
+	case x < 84:
 		a.State = 3
-	case x < 82:
+	case x < 91:
 		a.State = 4
 	default:
 		a.State = uint8(g.n(10))
